@@ -46,6 +46,8 @@ class Fn:
 
     # ---- expressions ----------------------------------------------------------------------------
     def const_int(self, node):
+        if isinstance(node, ast.Name) and node.id in getattr(self, "int_consts", {}) and node.id not in self.env:
+            return self.int_consts[node.id]
         if isinstance(node, ast.Constant) and type(node.value) is int:
             return node.value
         if isinstance(node, ast.UnaryOp) and isinstance(node.op, ast.USub) and isinstance(node.operand, ast.Constant) \
@@ -77,6 +79,8 @@ class Fn:
                 return f"(some {ln})", ty
             if n.id in self.consts:
                 return f"(some {n.id})", "nat"
+            if n.id in getattr(self, "int_consts", {}) and self.int_consts[n.id] >= 0:
+                return f"(some {self.int_consts[n.id]})", "nat"          # module-level named constant = its literal value
             err(n, f"unknown name {n.id}")
         if isinstance(n, ast.Call):
             return self.call(n)
@@ -260,6 +264,42 @@ def module_consts(tree) -> dict:
     return out
 
 
+def module_int_consts(tree) -> dict:
+    """module-level names bound exactly once (in the whole module) to an integer literal or to +,-,* of such names/literals:
+    a use of the name means the literal value"""
+    stores = {}
+    for n in ast.walk(tree):
+        if isinstance(n, ast.Name) and isinstance(n.ctx, (ast.Store, ast.Del)):
+            stores[n.id] = stores.get(n.id, 0) + 1
+        if isinstance(n, (ast.Global, ast.Nonlocal)):
+            for nm in n.names:
+                stores[nm] = stores.get(nm, 0) + 2
+    out = {}
+
+    def ev(e):
+        if isinstance(e, ast.Constant) and type(e.value) is int:
+            return e.value
+        if isinstance(e, ast.Name) and e.id in out:
+            return out[e.id]
+        if isinstance(e, ast.BinOp) and isinstance(e.op, (ast.Add, ast.Sub, ast.Mult)):
+            a, b = ev(e.left), ev(e.right)
+            if a is None or b is None:
+                return None
+            return a + b if isinstance(e.op, ast.Add) else a - b if isinstance(e.op, ast.Sub) else a * b
+        return None
+    for st in tree.body:
+        tgt = val = None
+        if isinstance(st, ast.Assign) and len(st.targets) == 1 and isinstance(st.targets[0], ast.Name):
+            tgt, val = st.targets[0].id, st.value
+        elif isinstance(st, ast.AnnAssign) and isinstance(st.target, ast.Name) and st.value is not None:
+            tgt, val = st.target.id, st.value
+        if tgt is not None and stores.get(tgt) == 1:
+            v = ev(val)
+            if v is not None:
+                out[tgt] = v
+    return out
+
+
 def find_class(tree, name):
     for s in tree.body:
         if isinstance(s, ast.ClassDef) and s.name == name:
@@ -288,6 +328,7 @@ def translate():
             raise TranslatorError(f"{TUNNEL}: constant {need} not found")
     dc = find_class(tree, "DataChecker")
     sock = find_class(tree, "TunnelExitSocket")
+    int_consts = module_int_consts(tree)
     fns = [f for f in dc.body if isinstance(f, ast.FunctionDef)]
     names = set()
     out = []
@@ -298,6 +339,7 @@ def translate():
         if [a.arg for a in f.args.args] != ["data"]:
             err(f, f"DataChecker.{f.name}: unexpected parameters")
         t = Fn(f.name, {"data": ("data", "bytes")}, consts, set(names), False)
+        t.int_consts = int_consts
         body = t.block(f.body, None, 1)
         out.append(f"/-- exit_socket.py l.{f.lineno}: DataChecker.{f.name} -/\ndef {f.name} (data : Bytes) : V Bool :=\n{body}\n")
         names.add(f.name)
@@ -309,6 +351,7 @@ def translate():
     if len(ia) != 1 or [a.arg for a in ia[0].args.args] != ["self", "data"]:
         raise TranslatorError(f"{SRC}: TunnelExitSocket.is_allowed(self, data) not found")
     t = Fn("is_allowed", {"data": ("data", "bytes")}, consts, set(names), True)
+    t.int_consts = int_consts
     body = t.block(ia[0].body, None, 1)
     out.append(f"/-- exit_socket.py l.{ia[0].lineno}: TunnelExitSocket.is_allowed; `peer_flags` = overlay.settings.peer_flags, "
                f"`pfx` = overlay.get_prefix() -/\n"
@@ -367,14 +410,59 @@ class PathFn:
         self.transport_names = set()  # local names bound to the family-selected transport
         self.opaque_if = opaque_if    # (atom, act): an `if <atom>:` whose body is replaced by one hand-modelled action
         self.facts = {}
+        self.int_consts = {}          # module-level named integer constants of the file (resolved to their literal value)
+        self.cls = None               # ClassDef the method lives in: private helpers called once are inlined
+        self.call_counts = {}         # helper name -> number of call sites in the scanned files
+        self.ret_stack = []           # continuations of the calls being inlined (`return` in a helper returns to the caller)
+        self.inlined = []
 
     def err(self, node, msg):
         raise TranslatorError(f"{self.file}:{getattr(node, 'lineno', '?')}: {self.name}: {msg}")
 
     def canon(self, node) -> str:
         import copy
-        n = _Subst(self.aliases).visit(copy.deepcopy(node))
+        al = dict({k: str(v) for k, v in self.int_consts.items() if k not in self.aliases}, **self.aliases)
+        n = _Subst(al).visit(copy.deepcopy(node))
         return ast.unparse(ast.fix_missing_locations(n))
+
+    def try_inline(self, call, nxt):
+        """`self._helper(a, b, …)` as a statement: a method of the same class, called from exactly one place, positional
+        arguments only, no defaults/varargs/decorators -> its body is translated in place with its parameters bound to the
+        canonical texts of the arguments; a `return` inside it continues after the call"""
+        f = call.func
+        if not (isinstance(f, ast.Attribute) and isinstance(f.value, ast.Name) and f.value.id == "self" and self.cls is not None):
+            return None
+        cands = [m for m in self.cls.body if isinstance(m, ast.FunctionDef) and m.name == f.attr]
+        if len(cands) != 1 or call.keywords or self.call_counts.get(f.attr) != 1 or f.attr == self.name:
+            return None
+        m = cands[0]
+        a = m.args
+        if m.decorator_list or a.vararg or a.kwarg or a.kwonlyargs or a.defaults or a.posonlyargs \
+                or len(a.args) != len(call.args) + 1 or a.args[0].arg != "self" or len(self.ret_stack) > 2:
+            return None
+        saved = (dict(self.aliases), set(self.transport_names))
+        bound = {p.arg: self.canon(arg) for p, arg in zip(a.args[1:], call.args)}
+        for k in bound:
+            self.aliases.pop(k, None)
+        self.aliases.update(bound)
+        depth = len(self.ret_stack)
+
+        def caller_cont():
+            # the rest of the CALLER is translated in the caller's environment
+            cur = (self.aliases, self.transport_names, self.ret_stack)
+            self.aliases, self.transport_names, self.ret_stack = dict(saved[0]), set(saved[1]), self.ret_stack[:depth]
+            try:
+                return nxt()
+            finally:
+                self.aliases, self.transport_names, self.ret_stack = cur
+        self.ret_stack.append(caller_cont)
+        try:
+            out = self.block(m.body, caller_cont)
+        finally:
+            self.ret_stack = self.ret_stack[:depth]
+            self.aliases, self.transport_names = dict(saved[0]), set(saved[1])
+        self.inlined.append(f"{f.attr} (l.{m.lineno})")
+        return out
 
     # ---- conditions -> nested ite --------------------------------------------------------------------------
     def cond(self, n):
@@ -472,6 +560,8 @@ class PathFn:
         if isinstance(s, ast.Return):
             if s.value is not None and ast.unparse(s.value) != "None":
                 self.err(s, "return with a value")
+            if self.ret_stack:
+                return self.ret_stack[-1]()      # returning from an inlined helper: the caller goes on
             return ("done",)
         if isinstance(s, ast.AugAssign) and ast.unparse(s.target) in ("self.bytes_up", "self.bytes_down"):
             return nxt()
@@ -530,6 +620,9 @@ class PathFn:
             txt = self.canon(call)
             if txt in self.acts:
                 return ("act", self.acts[txt], nxt())
+            inl = self.try_inline(call, nxt)
+            if inl is not None:
+                return inl
             self.err(s, f"call `{txt}` outside the subset")
         self.err(s, f"statement {type(s).__name__} outside the subset")
 
@@ -561,6 +654,18 @@ def translate_paths():
     if comm is None:
         raise TranslatorError(f"{COMM}: class TunnelCommunity not found")
     meta, progs, srcs = {}, [], []
+    es_consts = module_int_consts(ast.parse(es_src))
+    cm_consts = module_int_consts(ast.parse(cm_src))
+    call_counts = {}
+    for src_ in (es_src, cm_src, (REPO / "ipv8/messaging/anonymization/hidden_services.py").read_text()):
+        for n in ast.walk(ast.parse(src_)):
+            if isinstance(n, ast.Attribute) and isinstance(n.value, ast.Name) and n.value.id == "self":
+                call_counts[n.attr] = call_counts.get(n.attr, 0) + 1       # any reference counts (call, callback, getattr-free)
+    inlined = []
+
+    def wire(p_, cls_, consts_):
+        p_.cls, p_.int_consts, p_.call_counts, p_.inlined = cls_, consts_, call_counts, inlined
+        return p_
 
     # --- TunnelExitSocket.sendto(self, data, destination)
     f = _method(sock, "sendto", ["self", "data", "destination"], SRC)
@@ -569,6 +674,7 @@ def translate_paths():
                       f"destination == {NULL_TXT}": "destIsNull",
                       "self.transport_ipv6 if isinstance(destination, UDPv6Address) else self.transport_ipv4": "hasTransport"},
                acts={"self.queue.append((data, destination))": "queueAppend"})
+    wire(p, sock, es_consts)
     progs.append(("sendto_prog", f"exit_socket.py l.{f.lineno}: TunnelExitSocket.sendto", p.block(f.body, lambda: ("done",))))
     srcs.append(f)
     # --- the flush loop of enable(): while self.queue: self.sendto(*self.queue.popleft())
@@ -584,6 +690,7 @@ def translate_paths():
     f = _method(sock, "datagram_received", ["self", "data", "source"], SRC)
     p = PathFn(SRC, "datagram_received", atoms={"self.is_allowed(data)": "allowed"},
                acts={"self.tunnel_data(source, data)": "tunnelData"})
+    wire(p, sock, es_consts)
     progs.append(("datagram_received_prog", f"exit_socket.py l.{f.lineno}: TunnelExitSocket.datagram_received",
                   p.block(f.body, lambda: ("done",))))
     srcs.append(f)
@@ -603,6 +710,7 @@ def translate_paths():
                acts={f"{ES}.enable()": "enable", f"{ES}.sendto(data, destination)": "sendto"},
                aliasable=[lambda t: t == ES, lambda t: t == f"{ES}.hop", lambda t: t == f"{ES}.hop.address",
                           lambda t: t in ("sock_addr[0]", f"{ES}.hop.address[0]")])
+    wire(p, comm, cm_consts)
     p.atoms["self.exit_sockets.get(circuit_id)"] = "knownCircuit"          # object-or-None used as a truth value
     p.aliasable.append(lambda t: t == "self.exit_sockets.get(circuit_id)")
     oc = p.canon
@@ -630,6 +738,7 @@ def translate_paths():
                skip_calls=(unpack,),
                aliasable=[lambda t: t in ("payload.circuit_id", "payload.dest_address", "payload.org_address", "payload.data"),
                           lambda t: t in (CIRC, "self.circuits.get(payload.circuit_id)"), lambda t: t == E2E])
+    wire(p, comm, cm_consts)
     # `.get(x)` and `.get(x, None)` are the same lookup
     orig_canon = p.canon
     p.canon = lambda n: orig_canon(n).replace("self.circuits.get(payload.circuit_id)", CIRC)
@@ -638,6 +747,7 @@ def translate_paths():
         raise TranslatorError(f"{COMM}:{f.lineno}: on_data does not decode `payload, _ = {unpack}`")
     progs.append(("on_data_prog", f"community.py l.{f.lineno}: TunnelCommunity.on_data (after decoding the DataPayload)", tree))
     meta["on_data_aliases"] = p.facts.get("aliases", {})
+    meta["helpers_inlined"] = inlined
     srcs_c.append(f)
     # --- who can reach the exit path: exit_data is called from on_data only; on_data is the cell handler of DataPayload only,
     #     so the re-dispatch `on_packet_from_circuit` (deliverOwn) reaches on_data exactly for a nested DataPayload
